@@ -387,10 +387,81 @@ def deleteRef (df : Defects) (rooms : List Room) (db : Db) (caller : Key) (now :
             .ok (resign { without with edgeTombs := upsertEdgeTomb without.edgeTombs tomb })
           else .error .rejected
 
+/-! ### what a peer receives (C12) -/
+
+/-- the rows, references and deletion records that an operation sends — or, when it is refused for lack of
+    a right, would have sent — to the peers of the rooms concerned -/
+structure Outbox where
+  localOk : Bool
+  nodes : List Row
+  edges : List EdgeRow
+  nodeDels : List NodeTomb
+  edgeDels : List EdgeTomb
+deriving Repr, DecidableEq
+
+def signRow (caller : Key) (r : Row) : Row := { r with author := caller }
+def signEdge (caller : Key) (e : EdgeRow) : EdgeRow := { e with author := caller }
+
+/-- the deletion records a refused change would have produced -/
+def wouldBeTombs (caller : Key) (now : Int) (c : Change) : List EdgeTomb :=
+  match c.roomId, c.node with
+  | some rid, some _ => c.edgeDels.map fun e =>
+      { room := rid, src := e.src, label := e.label, dest := e.dest, cdate := e.cdate, ddate := now, author := caller }
+  | _, _ => []
+
+/-- `none`: nothing reaches a peer (the mutation failed before the right checks) -/
+def mutateOutbox (df : Defects) (rooms : List Room) (db : Db) (caller : Key) (now : Int) (m : Mut) : Option Outbox :=
+  match plan db now m with
+  | .error _ => none
+  | .ok (top, subs) =>
+    let all := top :: subs
+    match validateAll df rooms caller now top subs with
+    | .ok l =>
+      some { localOk := true,
+             nodes := l.filterMap fun ct => ct.1.node.map (signRow caller),
+             edges := l.flatMap fun ct => ct.1.edgeIns.map (signEdge caller),
+             nodeDels := [],
+             edgeDels := l.flatMap (·.2) }
+    | .error _ =>
+      some { localOk := false,
+             nodes := all.filterMap fun c => c.node.map (signRow caller),
+             edges := all.flatMap fun c => c.edgeIns.map (signEdge caller),
+             nodeDels := [],
+             edgeDels := all.flatMap (wouldBeTombs caller now) }
+
+def deleteNodeOutbox (df : Defects) (rooms : List Room) (db : Db) (caller : Key) (now : Int) (handle : Nat)
+    (entity : Ent) : Option Outbox :=
+  match db.getRow handle entity with
+  | none => some { localOk := true, nodes := [], edges := [], nodeDels := [], edgeDels := [] }
+  | some row =>
+    let tombs : List NodeTomb := match row.room with
+      | some rid => [{ room := rid, id := handle, entity, mdate := row.mdate, ddate := now, author := caller }]
+      | none => []
+    match deleteNode df rooms db caller now handle entity with
+    | .ok _ => some { localOk := true, nodes := [], edges := [], nodeDels := tombs, edgeDels := [] }
+    | .error _ => some { localOk := false, nodes := [], edges := [], nodeDels := tombs, edgeDels := [] }
+
+def deleteRefOutbox (df : Defects) (rooms : List Room) (db : Db) (caller : Key) (now : Int) (handle : Nat)
+    (entity : Ent) (label dest : Nat) : Option Outbox :=
+  match db.getRow handle entity with
+  | none => some { localOk := true, nodes := [], edges := [], nodeDels := [], edgeDels := [] }
+  | some row =>
+    let resigned : Row := { row with mdate := now, author := caller }
+    let edge := db.edges.find? (fun e => e.src = handle && e.label = label && e.dest = dest)
+    let tombs : List EdgeTomb := match edge, row.room with
+      | some e, some rid =>
+        [{ room := rid, src := handle, label, dest, cdate := e.cdate, ddate := now, author := caller }]
+      | _, _ => []
+    match deleteRef df rooms db caller now handle entity label dest with
+    | .ok _ =>
+      some { localOk := true, nodes := if df.refDeletionResign || edge.isSome then [resigned] else [],
+             edges := [], nodeDels := [], edgeDels := tombs }
+    | .error _ => some { localOk := false, nodes := [resigned], edges := [], nodeDels := [], edgeDels := tombs }
+
 /-- `delete { sys.Room { $room admin[$entry] } }` on the stored room row, seen as (author of the room row, ids
     of its admin entries). The room row has no `room_id`, so no right is checked; the guard on system
     entities is the only protection. Returns the new (author, admin entries). -/
-def deleteRoomAdminRef (df : Defects) (roomAuthor : Key) (adminIds : List Nat) (caller : Key) (entry : Nat) :
+def deleteRoomAdminRef (df : Defects) (_roomAuthor : Key) (adminIds : List Nat) (caller : Key) (entry : Nat) :
     Except MErr (Key × List Nat) :=
   if df.sysRefDeletionUnguarded then .ok (caller, adminIds.filter (· ≠ entry)) else .error .deleteNotAllowed
 
